@@ -181,6 +181,24 @@ const LITERAL_PLACES: [(&str, &str); 9] = [
     ("match-arm-result", "fn main() -> unit { let a: [T; 2] = match 0 { 0 => §, _ => § }; let _ = a; string_println(\"x\") }"),
     ("closure-argument", "fn main() -> unit { let f = |a: [T; 2]| 0; let _ = f(§); string_println(\"x\") }"),
 ];
+/// a trait call on a type-parameter receiver without the bound: how the receiver is reached
+const MISSING_BOUND_ROUTES: [(&str, &str); 5] = [
+    ("directly", "fn render[T](x: T) -> string { Dsp::sw(x, 1) }"),
+    ("via-generic-call", "fn render[T](x: T) -> string { Dsp::sw(idg(x), 1) }"),
+    ("via-closure-parameter", "fn render[T](x: T) -> string { let g = |y| Dsp::sw(y, 1); g(x) }"),
+    ("via-field", "fn render[T](x: T) -> string { let b = Bq { v: x }; Dsp::sw(b.v, 1) }"),
+    ("via-let-of-a-generic-call", "fn render[T](x: T) -> string { let y = idg(x); Dsp::sw(y, 1) }"),
+];
+/// ... and what else the package declares: another item whose type parameter has the bound
+const MISSING_BOUND_NEIGHBOURS: [(&str, &str); 7] = [
+    ("none", ""),
+    ("function-with-the-same-parameter-name-bounded", "fn other[T: Dsp](x: T) -> string { Dsp::sw(x, 2) }"),
+    ("function-with-another-parameter-name-bounded", "fn other[W: Dsp](x: W) -> string { Dsp::sw(x, 2) }"),
+    ("function-declared-before", "BEFORE fn other[T: Dsp](x: T) -> string { Dsp::sw(x, 2) }"),
+    ("same-name-bounded-by-another-trait", "trait Oth { fn ot(Self) -> string; }\nfn other[T: Oth](x: T) -> string { Oth::ot(x) }"),
+    ("method-with-the-same-parameter-name-bounded", "impl P { fn via[T: Dsp](self: P, x: T) -> string { Dsp::sw(x, 3) } }"),
+    ("second-parameter-of-the-same-function-bounded", "SECOND"),
+];
 /// 2^64 - 1 is the number the compiler itself uses for "any length"
 const ARRAY_LENGTHS: [&str; 7] = ["3", "2", "0", "4", "9223372036854775807", "18446744073709551615", "18446744073709551616"];
 /// (type, suffix, largest value, unused)
@@ -260,12 +278,12 @@ impl Family for IllTyped {
         "illtyped"
     }
     fn serves(&self) -> &'static [&'static str] {
-        &["C03", "C04", "C10"]
+        &["C03", "C04", "C10", "C07", "C02"]
     }
     fn rule(&self) -> &'static str {
-        "30 typed positions (operator operands, annotated let, parameters, conditions, return position, struct field, constructor payload, array element/index/set, ref_set, vec_push, branches, closure/method/generic arguments, the argument of a trait method called in path / dot form on a concrete receiver and on a type-parameter receiver whose type is known at the call or only after a generic call / through a closure parameter / through a field of a generic struct) x 10 expressions of different types (the well-typed one must be accepted, the other nine rejected by the typer); 32 structural errors (a field / method result / pattern variable of a generic struct or enum used at the type of another of its parameters, inside a generic function whose parameters carry the struct's parameter names in another order; array length in annotation/param/return, unknown/missing/extra field, call and constructor arity, tuple projection range, pattern arity/type, calling a non-function, unknown type/variant; a trait method called in path form with too many / too few arguments, without the bound, under another bound, with no impl for the receiver - the receiver reached directly, through a generic call, a closure parameter, a field); literal patterns: 4 literal kinds x 10 scrutinee types x 6 positions (directly; under a generic constructor, in a tuple from a generic call, on a closure parameter, on a let-bound generic result - the scrutinee's type still being inferred; against a rigid type parameter): rejected unless the literal's kind is the type's; written types: 24 spellings (6 well-formed; unknown names bare and under Vec / Ref / array / tuple / function types / a generic struct, a generic struct with no / too many arguments also under Vec, arguments given to a non-generic struct or a builtin, dyn of a missing trait / of a struct, the enclosing function's type parameter and one that is nobody's) x 16 places a type can be written (parameter, result, struct field, enum payload, let annotation in main / in an unused function / in a closure / in a match arm / on a tuple pattern / in a generic function, closure parameter plain / nested / second, method parameter, trait method parameter, extern parameter): accepted iff well-formed; operator domain: 12 binary + 2 unary operators x 13 operand types, written directly and inside a generic function instantiated at the type (accepted iff inside the documented domain). non-trivial = ill-typed variants; distinct = distinct source text; plus literal patterns at the edge of every integer type (the largest value, one past it, twice past it) x the 6 places a scrutinee type is learned x 8 types: past the largest value must be rejected (also reported under C10); plus array lengths written in a signature (3 = the value's length, 2, 0, 4, 2^63-1, 2^64-1 - the compiler's own any-length marker -, 2^64) x 6 nestings (bare, in a Ref / tuple / Vec / generic enum, array of arrays) x called directly / through a closure: only 3 is accepted, every case terminates; plus array literals of 1, 2, 3 elements checked against a written [E; 2] for 8 element kinds (int32, string, dyn, tuple / array / struct holding a dyn, generic struct, function) in 9 places (let annotation, argument, result, struct field, tuple component, inner array, branch result, match-arm result, closure result): only 2 elements are accepted"
+        "30 typed positions (operator operands, annotated let, parameters, conditions, return position, struct field, constructor payload, array element/index/set, ref_set, vec_push, branches, closure/method/generic arguments, the argument of a trait method called in path / dot form on a concrete receiver and on a type-parameter receiver whose type is known at the call or only after a generic call / through a closure parameter / through a field of a generic struct) x 10 expressions of different types (the well-typed one must be accepted, the other nine rejected by the typer); 32 structural errors (a field / method result / pattern variable of a generic struct or enum used at the type of another of its parameters, inside a generic function whose parameters carry the struct's parameter names in another order; array length in annotation/param/return, unknown/missing/extra field, call and constructor arity, tuple projection range, pattern arity/type, calling a non-function, unknown type/variant; a trait method called in path form with too many / too few arguments, without the bound, under another bound, with no impl for the receiver - the receiver reached directly, through a generic call, a closure parameter, a field); literal patterns: 4 literal kinds x 10 scrutinee types x 6 positions (directly; under a generic constructor, in a tuple from a generic call, on a closure parameter, on a let-bound generic result - the scrutinee's type still being inferred; against a rigid type parameter): rejected unless the literal's kind is the type's; written types: 24 spellings (6 well-formed; unknown names bare and under Vec / Ref / array / tuple / function types / a generic struct, a generic struct with no / too many arguments also under Vec, arguments given to a non-generic struct or a builtin, dyn of a missing trait / of a struct, the enclosing function's type parameter and one that is nobody's) x 16 places a type can be written (parameter, result, struct field, enum payload, let annotation in main / in an unused function / in a closure / in a match arm / on a tuple pattern / in a generic function, closure parameter plain / nested / second, method parameter, trait method parameter, extern parameter): accepted iff well-formed; operator domain: 12 binary + 2 unary operators x 13 operand types, written directly and inside a generic function instantiated at the type (accepted iff inside the documented domain). non-trivial = ill-typed variants; distinct = distinct source text; plus literal patterns at the edge of every integer type (the largest value, one past it, twice past it) x the 6 places a scrutinee type is learned x 8 types: past the largest value must be rejected (also reported under C10); plus array lengths written in a signature (3 = the value's length, 2, 0, 4, 2^63-1, 2^64-1 - the compiler's own any-length marker -, 2^64) x 6 nestings (bare, in a Ref / tuple / Vec / generic enum, array of arrays) x called directly / through a closure: only 3 is accepted, every case terminates; plus array literals of 1, 2, 3 elements checked against a written [E; 2] for 8 element kinds (int32, string, dyn, tuple / array / struct holding a dyn, generic struct, function) in 9 places (let annotation, argument, result, struct field, tuple component, inner array, branch result, match-arm result, closure result): only 2 elements are accepted; plus a trait call on a type-parameter receiver without the bound: 5 routes to the receiver x 7 neighbours that do have the bound (none, another function with the same / another parameter name before or after, the same name bounded by another trait, a method, the function's own second parameter) x instantiated at a type with / without an impl: all rejected (also reported under C07); plus all 512 containment graphs on three structs (an edge = a field holding the other struct by value) x 6 orders of declaration x 4 kinds of field (the struct, a tuple, an array, a generic instance holding it): accepted iff acyclic, and the accepted ones must be valid Go and print the sum (quick: direct fields in all 6 orders, the other kinds in 2)"
     }
-    fn cases(&self, _tier: Tier) -> Box<dyn Iterator<Item = Value> + '_> {
+    fn cases(&self, tier: Tier) -> Box<dyn Iterator<Item = Value> + '_> {
         let mut v = Vec::new();
         for (p, _, _) in POSITIONS {
             for (t, _) in EXPRS {
@@ -294,6 +312,27 @@ impl Family for IllTyped {
             for l in ARRAY_LENGTHS {
                 for route in ["called-directly", "through-a-closure"] {
                     v.push(json!({"kind": "array-length", "nest": n, "length": l, "route": route}));
+                }
+            }
+        }
+        // every containment graph on three structs (an edge = a field holding the other struct by value), in every
+        // order of declaration, the field being the struct itself / a tuple / an array / a generic instance
+        for mask in 0..512u64 {
+            for perm in 0..6u64 {
+                for kind in 0..4u64 {
+                    // quick: direct fields in every order; the other three kinds in two orders
+                    if tier == Tier::Quick && kind > 0 && perm != 0 && perm != 5 {
+                        continue;
+                    }
+                    v.push(json!({"kind": "struct-graph", "mask": mask, "perm": perm, "edge": kind}));
+                }
+            }
+        }
+        // a trait call without the bound, next to other items that have it
+        for (r, _) in MISSING_BOUND_ROUTES {
+            for (nb, _) in MISSING_BOUND_NEIGHBOURS {
+                for at in ["type-with-impl", "type-without-impl"] {
+                    v.push(json!({"kind": "missing-bound", "route": r, "neighbour": nb, "at": at}));
                 }
             }
         }
@@ -362,6 +401,74 @@ impl Family for IllTyped {
                 let text = format!("{}enum GOpt[T] {{ GNon, GSom(T) }}\nfn keep(r: {}) -> {} {{ r }}\nfn main() -> unit {{\n    {}\n    string_println(\"x\")\n}}\n", PRELUDE, ty, ty, call);
                 // the value is an array of three elements: only the length 3 fits
                 (text, len == "3", format!("array-length={};nest={};route={}", len, nest, route))
+            }
+            "struct-graph" => {
+                let (mask, perm, kind) = (case["mask"].as_u64().unwrap(), case["perm"].as_u64().unwrap() as usize, case["edge"].as_u64().unwrap());
+                const PERMS: [[usize; 3]; 6] = [[0, 1, 2], [0, 2, 1], [1, 0, 2], [1, 2, 0], [2, 0, 1], [2, 1, 0]];
+                let edge = |i: usize, j: usize| mask & (1 << (i * 3 + j)) != 0;
+                let fty = |j: usize| match kind {
+                    0 => format!("S{}", j),
+                    1 => format!("(S{}, int32)", j),
+                    2 => format!("[S{}; 1]", j),
+                    _ => format!("Bx[S{}]", j),
+                };
+                let fval = |j: usize| match kind {
+                    0 => format!("mk{}()", j),
+                    1 => format!("(mk{}(), 0)", j),
+                    2 => format!("[mk{}()]", j),
+                    _ => format!("Bx {{ v: mk{}() }}", j),
+                };
+                let mut decls = vec![String::new(); 3];
+                let mut mks = String::new();
+                for i in 0..3 {
+                    let mut fields = vec![format!("a{}: int32", i)];
+                    let mut vals = vec![format!("a{}: {}", i, i + 1)];
+                    for j in 0..3 {
+                        if edge(i, j) {
+                            fields.push(format!("f{}{}: {}", i, j, fty(j)));
+                            vals.push(format!("f{}{}: {}", i, j, fval(j)));
+                        }
+                    }
+                    decls[i] = format!("struct S{} {{ {} }}\n", i, fields.join(", "));
+                    mks.push_str(&format!("fn mk{}() -> S{} {{ S{} {{ {} }} }}\n", i, i, i, vals.join(", ")));
+                }
+                let mut text = String::from("struct Bx[T] { v: T }\n");
+                for i in PERMS[perm] {
+                    text.push_str(&decls[i]);
+                }
+                text.push_str(&mks);
+                text.push_str("fn main() -> unit {\n    string_println(int32_to_string(mk0().a0 + mk1().a1 + mk2().a2))\n}\n");
+                // acyclic <=> some order of removal of structs without outgoing edges into the rest empties the graph
+                let mut left = vec![0usize, 1, 2];
+                loop {
+                    let before = left.len();
+                    let l2 = left.clone();
+                    left.retain(|i| l2.iter().any(|j| edge(*i, *j)));
+                    if left.len() == before || left.is_empty() {
+                        break;
+                    }
+                }
+                let acyclic = left.is_empty();
+                (text, acyclic, format!("struct-graph;edge-kind={};acyclic={};edges={}", kind, acyclic, mask.count_ones()))
+            }
+            "missing-bound" => {
+                let (r, nb, at) = (case["route"].as_str().unwrap(), case["neighbour"].as_str().unwrap(), case["at"].as_str().unwrap());
+                let (_, render) = MISSING_BOUND_ROUTES.iter().find(|(k, _)| *k == r).unwrap();
+                let (_, neighbour) = MISSING_BOUND_NEIGHBOURS.iter().find(|(k, _)| *k == nb).unwrap();
+                let mut render = render.to_string();
+                let (mut before, mut after) = (String::new(), String::new());
+                if *neighbour == "SECOND" {
+                    // fn render[T, Q: Dsp](x: T, q: Q): the bound is on the other parameter
+                    render = render.replace("fn render[T](x: T)", "fn render[T, Q: Dsp](x: T, q: Q)");
+                } else if let Some(rest) = neighbour.strip_prefix("BEFORE ") {
+                    before = rest.to_string();
+                } else {
+                    after = neighbour.to_string();
+                }
+                let arg = if at == "type-with-impl" { "P { a: 1 }" } else { "\"s\"" };
+                let call = if *neighbour == "SECOND" { format!("render({}, P {{ a: 2 }})", arg) } else { format!("render({})", arg) };
+                let text = format!("{}trait Dsp {{ fn sw(Self, int32) -> string; }}\nimpl Dsp for P {{ fn sw(self: P, k: int32) -> string {{ int32_to_string(self.a + k) }} }}\nfn idg[U](u: U) -> U {{ u }}\nstruct Bq[T] {{ v: T }}\n{}\n{}\n{}\nfn main() {{ string_println({}) }}\n", PRELUDE, before, render, after, call);
+                (text, false, format!("missing-bound;route={};neighbour={};at={}", r, nb, at))
             }
             "array-literal-length" => {
                 let (en, pl, n) = (case["elem"].as_str().unwrap(), case["place"].as_str().unwrap(), case["items"].as_u64().unwrap());
@@ -447,15 +554,35 @@ impl Family for IllTyped {
         }
         let replay = json!({"kind": "text", "text": text, "oracle": if should_accept { "must-accept" } else { "must-reject" }});
         match compile_at(&path, &text) {
-            CompileOutcome::Ok(_) => {
+            CompileOutcome::Ok(comp) => {
                 rep.outcome = Some("accepted".into());
                 if should_accept {
                     rep.tag("well-typed:accepted");
+                    if case["kind"] == "struct-graph" {
+                        // the accepted graphs: stage representations consistent, valid Go, and the sum printed
+                        for (stage, msg) in crate::irck::check_all(&comp) {
+                            rep.findings.push(Finding { property: "C03", class: format!("irck.{}", stage), site: format!("{};msg={}", site, normalise_msg(&msg)), detail: msg, replay: replay.clone() });
+                        }
+                        let go = crate::oracle::go_text(&comp).unwrap_or_default();
+                        match crate::projects::run_go(&go, FUEL) {
+                            Ok(o) if lossy(&o.stdout) == "6\n" && o.end == crate::oracle::NEnd::Ok => rep.tag("struct-graph:runs"),
+                            Ok(o) => rep.findings.push(Finding { property: "C02", class: "sem.stdout".into(), site: site.clone(), detail: format!("expected \"6\\n\" got {:?}/{}", lossy(&o.stdout), end_tag(&o.end)), replay: replay.clone() }),
+                            Err(m) if m.starts_with("machinery") => rep.tag("machinery:go-unsupported"),
+                            Err(m) => rep.findings.push(Finding { property: "C02", class: m.split(':').next().unwrap_or("go.invalid").to_string(), site: format!("{};goerr={}", site, normalise_msg(&m)), detail: m.clone(), replay: replay.clone() }),
+                        }
+                    }
                 } else {
                     rep.tag("ill-typed:accepted");
                     let class = if case["kind"] == "operator" { "operator-domain.accepted" } else { "ill-typed.accepted" };
+                    if case["kind"] == "missing-bound" {
+                        rep.findings.push(Finding { property: "C07", class: class.into(), site: site.clone(), detail: "a trait call on a type parameter that does not have the bound was accepted".into(), replay: replay.clone() });
+                    }
                     if case["kind"] == "literal-pattern-range" {
                         rep.findings.push(Finding { property: "C10", class: class.into(), site: site.clone(), detail: "a literal pattern that does not fit the scrutinee's type was accepted".into(), replay: replay.clone() });
+                    }
+                    if case["kind"] == "struct-graph" {
+                        // what Go would say about the emitted text (a type of infinite size) is C02's business
+                        rep.findings.push(Finding { property: "C02", class: class.into(), site: site.clone(), detail: "structs that hold each other by value were accepted (Go: invalid recursive type)".into(), replay: replay.clone() });
                     }
                     rep.findings.push(Finding { property: "C03", class: class.into(), site, detail: "an ill-typed program was accepted".into(), replay });
                 }
